@@ -43,6 +43,15 @@ ENS_TYPE(BUILTIN_TYPE)
 /* C02: type() is complex for a complex argument and decimal otherwise (blocc/builtin/builtin_<name>.cpp); value() agrees */
 PROP(C02) __CPROVER_ensures((OK && g_eval_n >= 1) ==> ((V_IS(A1, IMAGINARY) ? V_IS(RET, IMAGINARY) : V_IS(RET, NUMERIC)) && VALID_TAG(RET)))
 #endif
+#ifdef BUILTIN_IS_INT
+/* C03 / C10: int(x).  A decimal (or the real part of a complex) converts exactly when it lies in [-2^63, 2^63) -- truncated
+ * toward zero -- and is OUT_OF_RANGE otherwise (2^63 itself and NaN included); an integer is handed through; a boolean is 0 / 1;
+ * a null of any of these types gives a null integer */
+PROP(C03, C10) __CPROVER_ensures((g_eval_n == 1 && V_IS(A1, NUMERIC) && !V_ISNULL(A1) && V_D(A1) >= -9223372036854775808.0 && V_D(A1) < 9223372036854775808.0) ==> (OK && !V_ISNULL(RET) && V_I(RET) == (long)V_D(A1)))
+PROP(C03, C10) __CPROVER_ensures((g_eval_n == 1 && V_IS(A1, NUMERIC) && !V_ISNULL(A1) && !(V_D(A1) >= -9223372036854775808.0 && V_D(A1) < 9223372036854775808.0)) ==> THROWN_RT(EXC_RT_OUT_OF_RANGE))
+PROP(C03) __CPROVER_ensures((g_eval_n == 1 && V_IS(A1, INTEGER) && !V_ISNULL(A1)) ==> (OK && !V_ISNULL(RET) && V_I(RET) == V_I(A1)))
+PROP(C03, C04) __CPROVER_ensures((g_eval_n == 1 && V_ISNULL(A1) && V_LEVEL(A1) == 0 && (V_MAJOR(A1) == NO_TYPE || V_MAJOR(A1) == INTEGER || V_MAJOR(A1) == NUMERIC || V_MAJOR(A1) == BOOLEAN || V_MAJOR(A1) == LITERAL)) ==> (OK && V_ISNULL(RET)))
+#endif
 ;
 
 #include FNS_C
